@@ -197,7 +197,7 @@ func runC11(w *World, r *Report) {
 		st := fieldStores(sn, "currentVersion")
 		ok := len(vk) == 1 && len(st) == 1
 		if ok {
-			arg := vk[0].Common().Args[1]
+			arg := unhelp(vk[0].Common().Args[1])
 			ld, isLd := arg.(*ssa.UnOp)
 			ok = isLd && Path(arg) == acc+".currentVersion" && domInstr(ld, st[0]) && Path(vk[0].Common().Args[0]) == acc+".policiesVersionsVacuum" && len(CondsOf(vk[0].Block())) == 0
 			b, isB := st[0].Val.(*ssa.BinOp)
